@@ -12,9 +12,13 @@ Open Scope Q_scope.
 
 Record resrec := {
   rs_grad : bool;                      (* GradientResults (true) / FunctionResults (false) *)
-  rs_vars : list Q;                    (* evaluations.variables (optimizer domain) *)
+  rs_vars : list Q;                    (* evaluations.variables (optimizer domain: transformed_results) *)
   rs_pert : list (list Q);             (* evaluations.perturbed_variables, flattened to R*P rows *)
-  rs_grads : list (list Q)             (* weighted objective, objective and constraint gradient rows *)
+  rs_grads : list (list Q);            (* weighted objective, objective and constraint gradient rows *)
+  (* the user-domain copies reported next to them (event data "results"; equal to the above without transforms) *)
+  rs_uvars : list Q;
+  rs_upert : list (list Q);
+  rs_ugrads : list (list Q)
 }.
 
 Record cbrec := {
@@ -68,42 +72,53 @@ Definition model_pert (r : runrec) (v : list Q) : option (list (list Q)) :=
   match r_scripts r with
   | None => None
   | Some scripts =>
-      let order := sampler_order (r_gs r) in
-      let ss := map (fun k => zero3 (sampler_mask k (r_gs r) (r_mask r)) (nth (Z.to_nat k) scripts [])) order in
-      Some (concat (perturb (r_bts r) (r_lbs r) (r_ubs r) v (r_mags r) (sum_samples ss)))
+      Some (concat (perturb (r_bts r) (r_lbs r) (r_ubs r) v (r_mags r) (run_samplers (r_gs r) (r_mask r) scripts)))
   end.
+
+(* a reported result against the evaluated vector v: optimizer-domain and user-domain copies *)
+Definition res_at (r : runrec) (v : list Q) (x : resrec) : bool :=
+  vec_eqb (rs_vars x) v && row_cmp r (rs_uvars x) (to_user r v).
 
 Definition nfree (r : runrec) : nat := free_count (r_mask r) (length (r_start r)).
 
-Definition check_grad_request (r : runrec) (cb : cbrec) (v : list Q) : bool :=
+Definition check_grad_request (r : runrec) (cb : cbrec) (v : list Q) (cached : bool) : bool :=
   let V := length (r_start r) in
   let uv := to_user r v in
   let gres := filter rs_grad (cb_res cb) in
   let fres := filter (fun x => negb (rs_grad x)) (cb_res cb) in
+  let own := owned (r_gs r) (r_mask r) V in
   match gres with
   | [g] =>
       let npert := length (rs_pert g) in
       let prows := lastn npert (cb_evals cb) in
       let frows := droplast npert (cb_evals cb) in
-      (* unperturbed rows: R copies of the evaluated vector (always when functions are requested) *)
-      (if cb_f cb then Nat.eqb (length frows) (r_R r) else (Nat.eqb (length frows) 0 || Nat.eqb (length frows) (r_R r))) &&
+      (* unperturbed rows: R copies of the evaluated vector, unless the evaluator's cache model says that the
+         function values of exactly this full vector are cached (then none, and no function result) *)
+      Nat.eqb (length frows) (if cached then 0 else r_R r) &&
       forallb (fun row => row_cmp r row uv) frows &&
-      Nat.eqb (length fres) (if Nat.eqb (length frows) 0 then 0 else 1) &&
-      forallb (fun x => vec_eqb (rs_vars x) v) fres &&
+      Nat.eqb (length fres) (if cached then 0 else 1) &&
+      forallb (res_at r v) fres &&
       (* the gradient result is at the evaluated vector; its perturbed variables are what the evaluator received *)
-      vec_eqb (rs_vars g) v &&
+      res_at r v g &&
       forallb2 (fun row p => row_cmp r row (to_user r p)) prows (rs_pert g) &&
+      forallb2 (fun up p => row_cmp r up (to_user r p)) (rs_upert g) (rs_pert g) &&
       (* every perturbed vector keeps the fixed variables: bit-identical to the evaluated vector *)
       forallb (fun p => agree_fixed_opt (r_mask r) p v) (rs_pert g) &&
       forallb (fun row => agree_fixed_opt (r_mask r) row uv) prows &&
+      forallb (fun up => agree_fixed_opt (r_mask r) up uv) (rs_upert g) &&
+      (* ... and every variable that no sampler owns (masked out, or sampler index -1) when it is inside its bounds *)
+      forallb (fun p => unowned_kept own (r_lbs r) (r_ubs r) v p) (rs_pert g) &&
       (* full prediction where the samples are scripted *)
       match model_pert r v with
       | Some mp => forallb2 (fun p m => row_cmp r p m) (rs_pert g) mp
       | None => true
       end &&
-      (* gradients: full length, exact zeros on fixed positions; the optimizer gets free-length rows *)
+      (* gradients, optimizer- and user-domain copies: full length, exact zeros on fixed positions; the optimizer
+         gets free-length rows *)
       negb (Nat.eqb (length (rs_grads g)) 0) &&
       forallb (fun row => zero_fixed_opt (r_mask r) V row) (rs_grads g) &&
+      Nat.eqb (length (rs_ugrads g)) (length (rs_grads g)) &&
+      forallb (fun row => zero_fixed_opt (r_mask r) V row) (rs_ugrads g) &&
       list_eqb Nat.eqb (cb_ret_g cb) [r_nfun r; nfree r] &&
       list_eqb Nat.eqb (cb_ret_f cb) (if cb_f cb then [r_nfun r] else [0%nat])
   | _ => false
@@ -112,7 +127,7 @@ Definition check_grad_request (r : runrec) (cb : cbrec) (v : list Q) : bool :=
 Definition check_fun_request (r : runrec) (cb : cbrec) (batch : bool) (vs : list (list Q)) : bool :=
   forallb2 (fun row m => row_cmp r row m) (cb_evals cb) (concat (map (fun v => repeat (to_user r v) (r_R r)) vs)) &&
   forallb (fun x => negb (rs_grad x)) (cb_res cb) &&
-  forallb2 (fun x v => vec_eqb (rs_vars x) v) (cb_res cb) vs &&
+  forallb2 (fun x v => res_at r v x) (cb_res cb) vs &&
   list_eqb Nat.eqb (cb_ret_g cb) [0%nat] &&
   list_eqb Nat.eqb (cb_ret_f cb) (if batch then [length vs; r_nfun r] else [r_nfun r]).
 
@@ -136,7 +151,8 @@ Definition check_link (all : list runrec) (cb : cbrec) (ni : option (list Q)) : 
   | _, _, _ => false
   end.
 
-Fixpoint check_cbs (all : list runrec) (r : runrec) (st : cb_state) (cbs : list cbrec) : bool :=
+(* [cache]: the function-value cache of the run's EnsembleEvaluator (Model/Mask.evaluate) *)
+Fixpoint check_cbs (all : list runrec) (r : runrec) (st : cb_state) (cache : option (list Q)) (cbs : list cbrec) : bool :=
   match cbs with
   | [] => true
   | cb :: t =>
@@ -146,11 +162,15 @@ Fixpoint check_cbs (all : list runrec) (r : runrec) (st : cb_state) (cbs : list 
       forallb (fun row => Nat.eqb (length row) (nfree r)) (cb_free cb) &&
       match out with
       | CbEvaluate vs =>
+          let '(plan, cache') := evaluate cache (cb_f cb) (cb_g cb) vs in
           Z.eqb (cb_out cb) 0 &&
-          (if cb_g cb
-           then match vs with [v] => negb batch && check_grad_request r cb v | _ => false end
-           else cb_f cb && check_fun_request r cb (batch && negb (is_some (cb_nested cb))) vs) &&
-          check_cbs all r st' t
+          match plan with
+          | EvFunctions vs' =>
+              cb_f cb && negb (cb_g cb) && check_fun_request r cb (batch && negb (is_some (cb_nested cb))) vs'
+          | EvGradCached v => negb batch && negb (cb_f cb) && check_grad_request r cb v true
+          | EvBoth v => negb batch && check_grad_request r cb v false
+          end &&
+          check_cbs all r st' cache' t
       | CbNestedFailed => Z.eqb (cb_out cb) 1 && Nat.eqb (length (cb_evals cb)) 0 && Nat.eqb (length t) 0
       | CbUserAbort => Z.eqb (cb_out cb) 2 && Nat.eqb (length (cb_evals cb)) 0 && Nat.eqb (length t) 0
       | CbRaise => Z.eqb (cb_out cb) 3 && Nat.eqb (length (cb_evals cb)) 0 && Nat.eqb (length t) 0
@@ -168,7 +188,7 @@ Definition check_run (all : list runrec) (r : runrec) : bool :=
   vec_eqb (r_seen_start r) (r_start r) &&
   match r_x0 r with Some x0 => vec_eqb x0 (gather_opt (r_mask r) (r_start r)) | None => true end &&
   match r_nbounds r with Some (a, b) => Nat.eqb a (nfree r) && Nat.eqb b (nfree r) | None => true end &&
-  check_cbs all r {| fixed := r_start r |} (r_cbs r).
+  check_cbs all r {| fixed := r_start r |} None (r_cbs r).
 
 Definition check_case (c : case) : bool :=
   let all := c_runs c in
